@@ -820,8 +820,14 @@ impl ArchiveIndex {
 
     /// Write archive index to writer
     pub fn write_to<W: Write + Seek>(&self, mut writer: W) -> ArchiveResult<()> {
-        let chunk_count = calculate_chunks(self.entries.len());
+        // Records are laid out with the field widths the footer declares
         let block_size = CHUNK_SIZE;
+        let offset_bytes = self.footer.offset_bytes;
+        let size_bytes = self.footer.size_bytes;
+        let record_size =
+            self.footer.ekey_length as usize + size_bytes as usize + offset_bytes as usize;
+        let entries_per_chunk = (block_size / record_size.max(1)).max(1);
+        let chunk_count = self.entries.len().div_ceil(entries_per_chunk);
         let hash_bytes = self.footer.footer_hash_bytes;
 
         // Write entry chunks and compute block hashes
@@ -834,12 +840,12 @@ impl ArchiveIndex {
             let entries_in_chunk = if chunk_idx == chunk_count - 1 {
                 self.entries.len() - entry_idx
             } else {
-                MAX_ENTRIES_PER_CHUNK.min(self.entries.len() - entry_idx)
+                entries_per_chunk.min(self.entries.len() - entry_idx)
             };
 
             for _ in 0..entries_in_chunk {
                 if entry_idx < self.entries.len() {
-                    let entry_bytes = self.entries[entry_idx].to_bytes(4, 4)?;
+                    let entry_bytes = self.entries[entry_idx].to_bytes(size_bytes, offset_bytes)?;
                     cursor.write_all(&entry_bytes)?;
                     entry_idx += 1;
                 }
